@@ -359,7 +359,7 @@ func checkC16(c *Ctx) (int, error) {
 	}
 	c.ev.Rule = fmt.Sprintf("every history of exactly %d calls over {Write(0|small|large), Flush, Close, Reset} printed by TLC from WriterModel (prefixes are validated event by event), each on %d settings of %d; non-trivial = contains a Close and at least one other call; distinct by (history, setting)", maxLen, perHist, nset)
 	c.ev.Exhaustive = true
-	for _, cs := range cases[:minInt(3, len(cases))] {
+	for _, cs := range spread(cases) {
 		c.ev.sample(map[string]interface{}{"history": histString(cs.Ops), "setting": cs.Tag, "data": cs.Data})
 	}
 	cases = c.spreadArch(cases, false)
